@@ -103,7 +103,7 @@ func c03Gen(r *RNG, id string, agg bool) *Case {
 		}
 		c.Tag("positions-of-five-and-six-digits")
 	}
-	if forceDenseWide || (!agg && r.Chance(1, 24)) || (agg && r.Chance(1, 50)) {
+	if forceDenseWide || (!agg && atScale(r, 24)) || (agg && atScale(r, 50)) {
 		// scale: a few thousand columns, rows that differ from the reference at every column or at every second one (rows
 		// of tens of kilobytes, thousands of distinct SNPs in the aggregate) between ordinary short rows - whatever a
 		// writer batches, pre-allocates or caches by size must not matter
